@@ -7,6 +7,7 @@ mod exprs;
 mod gen;
 mod gen_tmpl;
 mod lit;
+mod locs;
 mod path;
 mod probe;
 mod scopes;
@@ -32,6 +33,9 @@ fn main() {
         "determinism" => determinism::run(tier, seed, &mut out),
         "exprgen" => exprs::run_gen(tier, seed, &mut out),
         "exprval" => exprs::run_val(tier, seed, &mut out),
+        "locs" => locs::run_locs(tier, seed, &mut out),
+        "diag" => locs::run_diag(tier, seed, &mut out),
+        "diag_levels" => locs::level_table(&mut out),
         "lit" => lit::run(tier, seed, &mut out),
         "litctx" => lit::run_ctx(tier, seed, &mut out),
         "path" => path::run(tier, seed, &mut out),
